@@ -12,8 +12,8 @@ from vlib.static import serve_static, record_opens
 ID = 'C16'
 LEVEL = 'exploration'
 RULE = ('a real tree is built per run: base/{top.txt, root/{f.txt, .hidden, "we ird.txt", "a\\\\b.txt", sub/{g.txt, deep/h.txt}}, root2/decoy.txt, '
-        'rootx/secret.txt, root_backup/secret.txt, other/secret.txt}. case = (root spelling: absolute, with trailing separator(s), relative to the '
-        'working directory, with a dot-dot detour, the nested root root/sub; file name = prefix in {"", "/", "\\\\", "//", absolute base, absolute '
+        'rootx/secret.txt, root_backup/secret.txt, other/secret.txt, case-variant twins Root/ and ROOT/, a second site site2/ with the same relative layout}. case = (root spelling: absolute, with trailing separator(s), relative to the '
+        'working directory (which alternates between base and base/site2 from request to request), with a dot-dot detour, the nested root root/sub; file name = prefix in {"", "/", "\\\\", "//", absolute base, absolute '
         'root, "/etc/"} + 1-6 segments from {file and directory names of the tree, ".", "..", "", "...", sibling directory names, "passwd", NUL '
         'segment} joined by separators from {"/", "\\\\", "//", "/./", "\\\\\\\\"} + optional trailing separator), served by static_file from a handler '
         'of the default application. Oracle: independent string normalisation of the location (POSIX reading and backslash-as-separator reading); '
@@ -27,8 +27,11 @@ FILES = {
     'top.txt': b'TOP-DECOY', 'root/f.txt': b'root f', 'root/.hidden': b'hidden', 'root/we ird.txt': b'weird', 'root/a\\b.txt': b'backslash name',
     'root/sub/g.txt': b'sub g', 'root/sub/deep/h.txt': b'deep h', 'root2/decoy.txt': b'ROOT2-DECOY', 'rootx/secret.txt': b'ROOTX-DECOY',
     'root_backup/secret.txt': b'BACKUP-DECOY', 'other/secret.txt': b'OTHER-DECOY', 'root2/f.txt': b'ROOT2-F-DECOY', 'secret.txt': b'BASE-SECRET-DECOY',
+    'Root/f.txt': b'CASE-VARIANT-DECOY 1', 'ROOT/secret.txt': b'CASE-VARIANT-DECOY 2', 'root/SUB/g.txt': b'inside, other case', 'root/sub/Deep/h.txt': b'inside, other case 2',
+    # a second site with the same relative layout: the working directory alternates between the two
+    'site2/root/f.txt': b'site2 f', 'site2/root/sub/g.txt': b'site2 g', 'site2/top.txt': b'SITE2-TOP-DECOY', 'site2/root2/decoy.txt': b'SITE2-ROOT2-DECOY',
 }
-SEGS = ['f.txt', 'sub', 'g.txt', 'deep', 'h.txt', '.hidden', 'we ird.txt', 'a\\b.txt', '.', '..', '..', '..', '', '...', 'root', 'root2', 'rootx', 'root_backup',
+SEGS = ['Root', 'ROOT', 'SUB', 'Deep', 'F.TXT', 'f.txt', 'sub', 'g.txt', 'deep', 'h.txt', '.hidden', 'we ird.txt', 'a\\b.txt', '.', '..', '..', '..', '', '...', 'root', 'root2', 'rootx', 'root_backup',
         'other', 'decoy.txt', 'secret.txt', 'top.txt', 'passwd', 'etc', 'a', 'b.txt', '\0', 'nofile']
 SEPS = ['/', '/', '/', '\\', '\\', '//', '/./', '\\\\', '/\\', '\\/']
 ROOTS = ['abs', 'abs/', 'abs//', 'rel', './rel', 'rel/', 'detour', 'nested', 'nested/', 'abs/.', 'rel\\']
@@ -58,9 +61,12 @@ def cleanup():
         shutil.rmtree(_STATE.pop('base'), ignore_errors=True)
 
 
-def root_of(spec, base):
-    """(root argument given to static_file, true absolute root directory)"""
+def root_of(spec, base, cwd=None):
+    """(root argument given to static_file, true absolute root directory); relative spellings are relative to the working directory"""
     R = base + '/root'
+    if cwd and spec in ('rel', './rel', 'rel/', 'nested/'):
+        R2 = cwd + '/root'
+        return {'rel': ('root', R2), './rel': ('./root', R2), 'rel/': ('root/', R2), 'nested/': ('root/sub/', R2 + '/sub')}[spec]
     return {
         'abs': (R, R), 'abs/': (R + '/', R), 'abs//': (R + '//', R), 'rel': ('root', R), './rel': ('./root', R), 'rel/': ('root/', R),
         'detour': (base + '/root2/../root', R), 'nested': (R + '/sub', R + '/sub'), 'nested/': ('root/sub/', R + '/sub'), 'abs/.': (R + '/.', R),
@@ -98,16 +104,20 @@ def case_st(draw):
         name += s + sep
     if not draw(st.booleans()):
         name = name[:-len(seps[-1])]
-    return {'root': draw(st.sampled_from(ROOTS)), 'name': name}
+    return {'root': draw(st.sampled_from(ROOTS)), 'name': name, 'cwd': draw(st.sampled_from(['', '', 'site2']))}
 
 
 def check_case(ctx, case):
     base = tree()
-    root_arg, R = root_of(case['root'], base)
+    cwd = base + ('/' + case['cwd'] if case.get('cwd') else '')
+    os.chdir(cwd)                                   # the working directory changes between requests
+    root_arg, R = root_of(case['root'], base, cwd)
     name = case['name'].replace('<base>', base).replace('<root>', R)
     with record_opens() as opens:
         r = serve_static(name, root_arg)
         opened = list(opens)
+    if case.get('cwd'):
+        ctx.count('served_from_other_working_directory')
     if r.escaped is not None:
         raise CheckFailure(f'static_file({name!r}, root={root_arg!r}) raised: {fmt_exc(r.escaped)}')
     if r.code == 500:
@@ -123,7 +133,7 @@ def check_case(ctx, case):
             rp = os.path.realpath(p)
         except (ValueError, OSError):
             continue
-        if (rp.startswith(base + '/') or rp == '/etc/passwd') and not inside(rp, R):
+        if (rp.startswith(base + '/') or rp == '/etc/passwd') and not inside(rp, R) and os.path.isfile(rp):
             raise CheckFailure(f'static_file({name!r}, root={root_arg!r}) opened {rp!r}, which is outside the root {R!r} (status {r.status!r})')
     if r.code == 200:
         ok = False
@@ -173,9 +183,11 @@ def run(ctx):
                        '../root/f.txt', './../root2/decoy.txt', '..', '../', '../root2', 'f.txt/../../top.txt', '\\..\\top.txt', '/../top.txt', '..\\..\\top.txt',
                        '..\\other\\secret.txt', '../secret.txt', '..\\secret.txt', 'sub/..\\..\\secret.txt', 'f.txt', 'sub/g.txt', 'sub\\g.txt', 'a\\b.txt', '.hidden',
                        'g.txt', '../f.txt', '..\\f.txt', 'deep/h.txt', '../g.txt']
+            escapes += ['../Root/f.txt', '../ROOT/secret.txt', '..\\Root\\f.txt', 'SUB/g.txt', '../root/../Root/f.txt', '../../' + base.strip('/').upper() + '/top.txt']
             for rs in ROOTS:
                 for e in escapes:
-                    ctx.guarded(check_case, {'root': rs, 'name': e})
+                    for cwd in ('', 'site2', ''):
+                        ctx.guarded(check_case, {'root': rs, 'name': e, 'cwd': cwd})
             ctx.count('escape_grid')
         n = 4000 if ctx.tier == 'quick' else 30000
         ctx.hyp(case_st(), check_case, n)
@@ -185,6 +197,10 @@ def run(ctx):
 
 def replay(ctx, case):
     try:
+        # a request may depend on an earlier one served from another working directory: prime with both
+        for cwd in ('site2', ''):
+            if cwd != case.get('cwd', ''):
+                check_case(ctx, {'root': case['root'], 'name': 'f.txt', 'cwd': cwd})
         check_case(ctx, case)
     finally:
         cleanup()
